@@ -452,7 +452,7 @@ impl Property for C16 {
                 let (content, plain_name): (Vec<u8>, &str) = match class.0 {
                     Reader::Text => (b"2020-01-02T03:04:05.000000+00:00 #a one\n2020-01-02T03:04:06.000000+00:00 #b two\n".to_vec(), "plain.log"),
                     Reader::Utmp | Reader::Utmpx => {
-                        let ff = crate::fixedgen::FixedFile { layout: 0, recs: (0..3).map(|k| crate::fixedgen::FRec { sec: 1_600_000_000 + k, usec: 1, null: 0, pid: 5, typ: 6, serial: k as u32, full: 0, stale: 0 }).collect() };
+                        let ff = crate::fixedgen::FixedFile { layout: 0, recs: (0..3).map(|k| crate::fixedgen::FRec { sec: 1_600_000_000 + k, usec: 1, null: 0, pid: 5, typ: 6, serial: k as u32, full: 0, stale: 0, addr: [0; 4] }).collect() };
                         (ff.render(), "plain.wtmp")
                     }
                     _ => return Outcome::discard("end-to-end sample only for text and utmp names"),
